@@ -330,6 +330,11 @@ def corpus():
     out.append(C(f'res create unset unset {hx(b"process.executable.name")}=i5 -', 'corpus', 'create-D61'))
     out.append(C(f'res create unset unset {hx(b"process.executable.name")}=s{hx(b"exe")} -', 'corpus', 'create'))
     out.append(C(f'res create {hx(b"a=b,service.name=foo")} {hx(b"svc")} {hx(b"a")}=i7 {hx(b"sch")}', 'corpus', 'create'))
+    # Resource::GetEmpty() as an operand of Merge (an operand without attributes and schema URL is that shared object)
+    out.append(C(f'res merge {hx(b"a")}=i7,{hx(b"b")}=s{hx(b"x")} {hx(b"sch")} - -', 'corpus', 'merge-with-empty'))
+    out.append(C(f'res merge - - {hx(b"a")}=i7 {hx(b"sch")}', 'corpus', 'merge-with-empty'))
+    out.append(C('res merge - - - -', 'corpus', 'merge-with-empty'))
+    out.append(C(f'res merge - - {hx(b"k")}=b1 -', 'corpus', 'merge-with-empty'))
     return out
 
 
@@ -576,6 +581,10 @@ def gen_res(rng, big):
     k = 40 if big else 4
     for _ in range(2000 * k):
         out.append(C(f'res merge {rand_attrs(rng)} {hx(rand_schema(rng))} {rand_attrs(rng)} {hx(rand_schema(rng))}', 'merge', origin='gen'))
+        if rng.random() < 0.1:
+            # one operand is the shared empty resource (Resource::GetEmpty()): merging with it changes nothing, and leaves it empty
+            e = f'{rand_attrs(rng)} {hx(rand_schema(rng))}'
+            out.append(C(f'res merge {e} - -' if rng.random() < 0.5 else f'res merge - - {e}', 'merge', 'empty-operand', origin='gen'))
     for _ in range(1500 * k):
         out.append(C(f'res detect {envtok(rand_env_attrs(rng))} {envtok(rand_env_service(rng))}', 'detect', origin='gen'))
     for s in (b',', b',,', b'=', b'==', b'a', b'a=', b'=a', b'a=b,', b',a=b', b'a=b,a=c', b'a=b,,a=c,', b'a==b', b'a=b=c,b'):
